@@ -68,6 +68,9 @@ def step (s : St) : List String → St × String
     match sid.toNat? with
     | some sid => (s.del sid, "ok")
     | none => (s, "bad-op")
+  | ["hs", "oversize", sid, _] =>
+    -- too large to relay (or just small enough): whatever is answered, data or control, shows no payload byte
+    if s.kind = "" ∨ sid.toNat?.isNone then (s, "bad-op") else (s, "sent 0 0")
   | ["hs", "pingclose", sid, _, mode, k] =>
     -- a write fails / is held, the peer's close arrives, the writer recovers: whatever the handler still
     -- writes is sealed under a key the stream's ends held — never plaintext, never the all-zero key
@@ -105,6 +108,10 @@ def spec (s : Spec) (op out : List String) : Spec × String :=
     match sid.toNat? with
     | some sid => ({ s with acked := s.acked.filter (·.1 != sid) }, "ok")
     | none => (s, "ok")
+  | ["hs", "oversize", _, _], ["sent", leak, unauth] =>
+    if leak ≠ "0" then (s, "fail plaintext-written-by-handler in a control or data frame")
+    else if unauth ≠ "0" then (s, "fail frame-not-under-tunnel-key")
+    else (s, "ok")
   | ["hs", "pingclose", sid, _, _, _], ["closed", leak, unauth, zk] =>
     let s' := match sid.toNat? with
       | some sid => { s with acked := s.acked.filter (·.1 != sid) }
